@@ -968,7 +968,16 @@ def run(chk, p, t):
 
         r.guard(setter.qualname, two)
 
-    steps = [("C02.R1", rule_r1), ("C02.R2", rule_isvisible), ("C02.R5", rule_r5), ("C02.R6", rule_r6), ("C02.R7", rule_r7), ("C02.R8", rule_r8), ("C02.R11", rule_r11), ("C02.R12", rule_r12)]
+    def rule_r13(chk, p, t):
+        # slew reachability is judged against the sensor's *prior* pointing state, which is what the last executed
+        # tasking reported back: sensor -> worker -> engine -> scenario -> sensing agent, every sensor its own values
+        # (shared instance of C08.R4)
+        from rsa.effects import EffectAnalysis
+        from rules import C08
+
+        C08.rule_r4(chk, p, t, EffectAnalysis(p, t), rid="C02.R13")
+
+    steps = [("C02.R1", rule_r1), ("C02.R2", rule_isvisible), ("C02.R5", rule_r5), ("C02.R6", rule_r6), ("C02.R7", rule_r7), ("C02.R8", rule_r8), ("C02.R11", rule_r11), ("C02.R12", rule_r12), ("C02.R13", rule_r13)]
     for rid, fn in steps:
         if chk.only_rule is not None and chk.only_rule not in (rid, "C02.R3", "C02.R4") and not (rid == "C02.R8" and chk.only_rule in ("C02.R9", "C02.R10")):
             continue
